@@ -447,3 +447,6 @@ CHECKS["C08"] = {
 
 # functional conformance: the GE phenotype EQUALS GEMapFn!MapForm evaluated by TLC on the same genes
 CHECKS["C07"]["drivers"].append({"module": "harness.drv_gemap", "trace": "Trace_GEMap", "advisory": True})
+
+# advisory: lineage of the individuals evaluated by RandomSearch / OnePlusOne / HC (what the algorithms are documented to do)
+CHECKS["C12"]["drivers"].append({"module": "harness.drv_lineage", "trace": "Trace_Lineage", "advisory": True})
